@@ -45,6 +45,23 @@ func expandFuncs(E *Engine, pats []string) []string {
 			}
 			continue
 		}
+		if strings.HasPrefix(p, "contracts:") {
+			re := regexp.MustCompile(p[len("contracts:"):])
+			var ks []string
+			for k := range E.S.C {
+				if _, ok := E.P.Funcs[k]; ok && re.MatchString(k) {
+					ks = append(ks, k)
+				}
+			}
+			sort.Strings(ks)
+			for _, k := range ks {
+				if !seen[k] {
+					seen[k] = true
+					out = append(out, k)
+				}
+			}
+			continue
+		}
 		if strings.HasPrefix(p, "-") {
 			// exclusion
 			re := regexp.MustCompile(p[1:])
